@@ -3,7 +3,7 @@ the triangular in-cell nest (enumerate + skip(index+c)) and the periodic nest
 (placements x relative positions x periodic_images)."""
 from .anchors import is_trait_call
 from .cfg import CFG
-from .lineage import adaptor_chain, through
+from .lineage import IDENTITY_ADAPTORS, adaptor_chain, through
 from .loops import for_loops, item_of, lift
 from .mirutil import Tracer, call_matches, callee_name, const_value, field_path
 from .sym import NUM, SYM
@@ -29,16 +29,50 @@ def closure_is_shape_transform(f, tr, map_term):
 class PairLoops:
     def __init__(self, f, body, leaf_trait, leaf_method):
         self.f = f
+        # nest form (pk/loopform.py): helpers unknown to the reference tree spliced in, any/fold/sum as loops, the adaptor
+        # that feeds a loop directly (map/filter/flat_map/product) fused into the loop
+        body = f.nest_form(body, yields=False)
         self.b = body
         self.cfg = CFG(body)
         self.tr = Tracer(body)
         self.loops = for_loops(body, self.cfg, self.tr)
+        for d in self.loops:
+            d['chain_all'] = d['chain']
+            keep = [c for c in d['chain_terms'] if c[0] not in IDENTITY_ADAPTORS]
+            d['chain_terms'] = keep
+            d['chain'] = [c[0] for c in keep]
+            self._zip_of_placements_and_shapes(d)
         self.by_header = {d['header']: d for d in self.loops}
         self.leafs = [(bi, t) for bi, t in body.calls() if is_trait_call(t, leaf_trait, leaf_method)]
         self.problems = []
         self.tri = None
         self.per = None
         self._analyse()
+
+    def _zip_of_placements_and_shapes(self, d):
+        """`X.zip(X.map(|p| shape.transform(p)))` visits every element of X once, as (placement, placed shape): treat it as
+        a loop over X whose item.0 is the placement and item.1 the shape placed there."""
+        if d['chain'] != ['zip']:
+            return
+        zt = d['chain_terms'][0][1]
+        if len(zt['args']) != 2:
+            return
+        sb, cb = adaptor_chain(self.tr, zt['args'][1])
+        sigb = [c for c in cb if c[0] not in IDENTITY_ADAPTORS]
+        sa = d['src']
+
+        def base(o):
+            if o['o'] != 'call' or not o['term']['args']:
+                return None
+            r = self.tr.origin(o['term']['args'][0])
+            return (callee_name(o['term']), r.get('o'), r.get('l'), tuple(field_path(r.get('p', []))))
+        if base(sa) is None or base(sa) != base(sb):
+            return
+        if [c[0] for c in sigb] != ['map'] or not closure_is_shape_transform(self.f, self.tr, sigb[0][1]):
+            return
+        d['zip_shape'] = True
+        d['chain'] = []
+        d['chain_terms'] = []
 
     def _src_name(self, d):
         s = d['src']
@@ -59,6 +93,10 @@ class PairLoops:
         h, fp = item_of(tr, op)
         if h is not None:
             d = self.by_header.get(h)
+            if d and d.get('zip_shape'):
+                if fp == ['1']:
+                    return h, []
+                return None, 'the operand is the placement half of a (placement, shape) pair, not the shape'
             if d and 'map' in d['chain']:
                 mt = [c for c in d['chain_terms'] if c[0] == 'map']
                 if all(closure_is_shape_transform(self.f, tr, m[1]) for m in mt):
